@@ -88,6 +88,11 @@ add("C09", MC,
     "Trusted: simnet's quiescence. Bound: N=2 (quick) / 3 (thorough), k=2.",
     "stateless DFS with deviation bounding over schedules of the running implementation; quiescence-based liveness oracle", "dfs", "DESIGN.md 5/C09")
 
+add("C19", MC,
+    "Real WebTransportSession over simnet against a scripted client: CONNECT on stream ids with 1-, 2-, 4- and 8-byte varints, accepted first or after ordinary requests; incoming uni and bidi WebTransport streams whose header + payload are delivered under every execution with at most 2 deviations (every single and double chunk cut, delayed delivery, scheduling) plus one-byte reads, stream open or finished, read through poll_data and AsyncRead; server-opened streams under whole and one-byte write acceptance; extension disabled. Oracle: the three session-id observations equal the CONNECT stream id; payload complete and in order.",
+    "Trusted: simnet; refimpl::{varint,qpack,settings}. Client role of WebTransport is not implemented by the crate and not covered.",
+    "stateless DFS with deviation bounding over chunking x delivery x schedule choices of the running implementation", "dfs", "DESIGN.md 5/C19")
+
 ALL = [f"C{i:02d}" for i in range(1, 21)]
 pending_reason = "check not built yet in this revision of /verif (planned, see DESIGN.md section 5)"
 manifest = dict(
